@@ -247,7 +247,12 @@ def record_case(seed):
     else:
         thr_rows = [[rng.randrange(nlev) for _ in range(w)] for _ in range(h)]
         thr_scalar = False
-    npix = rng.choice([1, 1, 2, 3, 5, max(1, h * w // 3)])
+    npix = rng.choice([1, 1, 2, 3, 5, max(1, h * w // 3), h * w])
+    if rng.random() < 0.08:      # one component that fills the whole frame, with npixels equal to (or one more than) the number of pixels
+        rows = [[nlev - 1] * w for _ in range(h)]
+        thr_rows = [[0] * w for _ in range(h)]; thr_scalar = True
+        mask = []; use_mask = False; nan = []
+        npix = h * w + rng.choice([0, 0, 1])
     conn = rng.choice([4, 8])
     data = _to_float(rows, nan)
     m = None
